@@ -262,9 +262,37 @@ def nontrivial_c01(obj):
     return False
 
 
+def _decoy():
+    """another, unrelated dataset opened in the same process (other runs, other lead times): what one Data object answers is its own business"""
+    import verif.data
+    import verif.input
+    p = os.path.join(par.workdir(), "decoy.txt")
+    if not os.path.exists(p):
+        mat.write_text(p, {"times": [1459317600, 1459490400, 1462082400], "leads": [3, 27, 51, 75], "locs": [7], "lat": [10], "lon": [20], "elev": [30],
+                           "hasObs": True, "obs": list(range(12)), "fcst": list(range(1, 13))})
+    with quiet():
+        return verif.data.Data([verif.input.get_input(p)])
+
+
+def scale_leads(obj, f):
+    """the same dataset with every lead time multiplied by f (lead times need not be whole hours: with f = 1/8, 12 h -> 1.5 h); only for families whose
+    request menu has no lead-time axis (the -o selection and the verified lead times scale along)"""
+    import copy
+    o = copy.deepcopy(obj)
+    for inp in list(o["inputs"]) + ([o["clim"]] if o.get("clim") else []):
+        if isinstance(inp, dict) and "leads" in inp:
+            inp["leads"] = [l * f for l in inp["leads"]]
+    o["leads"] = [l * f for l in o["leads"]]
+    if "o" in o.get("opts", {}):
+        o["opts"]["o"] = [l * f for l in o["opts"]["o"]]
+    return o
+
+
 def check_dataset(job):
     """job = (obj, fmt, variant, fresh_per_request). Returns dict(n, divs, nontrivial)."""
     obj, fmt, variant, fresh = job
+    if (variant or {}).get("lead_scale"):
+        obj = scale_leads(obj, variant["lead_scale"])
     out = {"n": 0, "divs": [], "nontrivial": nontrivial_c01(obj)}
     base = {"kind": "dataset", "format": fmt, "variant": {k: v for k, v in (variant or {}).items() if k != "rng"},
             "dataset": {k: obj[k] for k in obj if k != "req"}}
@@ -322,10 +350,15 @@ def check_dataset(job):
         if msg:
             div("axis-values:%s" % ax["a"], msg)
     rtol = RTOL32 if fmt != "text" else RTOL
+    decoy = (variant or {}).get("decoy")
+    if decoy:
+        keep = _decoy()
     for r in obj["req"]:
         try:
             with quiet():
                 dd = make_data(obj, inputs, clim) if fresh else data
+                if decoy and fresh:
+                    keep = _decoy()
                 res = do_request(dd, r)
             out["n"] += 1
             if dd.num_inputs != len(obj["inputs"]) or len(inputs) != len(obj["inputs"]):
